@@ -1407,7 +1407,42 @@ def _reset_scalar_attributes(ctx, res, t):
         after = reach(g, nxt, avoid=_touches_attrs)
         return bool(nxt) and head[0] not in after and g.exit not in after
 
-    seen = reach(g, starts, keyvars[0], facts, avoid=lambda n: _touches_attrs(n) or presence_test(n))
+    none_names = {k[len("notnone:"):] for k, val in facts.items() if k.startswith("notnone:") and val is False}
+
+    def is_sentinel(e):
+        """a name bound once, at module or class level, to an object that is certainly not None (`_MISSING = object()`)"""
+        v_ = None
+        if isinstance(e, ast.Name):
+            r = ctx.p.resolve_name(fn0.module, e.id)
+            v_ = r[1][1] if (r and r[0] == "assign") else None
+        elif isinstance(e, ast.Attribute) and isinstance(e.value, ast.Name) and fn0.cls is not None and e.value.id in ("cls", "self", fn0.cls.name):
+            m = fn0.cls.lookup(e.attr)
+            v_ = m[2] if (m and m[1] == "assign") else None
+        return isinstance(v_, ast.Call) or (isinstance(v_, ast.Constant) and v_.value is not None)
+
+    def infeasible(n, lab):
+        """the value being None, `value is <sentinel>` is false (the 'attribute missing' test of getattr(entity, attr, <sentinel>))"""
+        if n.kind != "test":
+            return False
+        e, neg = n.ast, False
+        while isinstance(e, ast.UnaryOp) and isinstance(e.op, ast.Not):
+            e, neg = e.operand, not neg
+        if not (isinstance(e, ast.Compare) and len(e.ops) == 1 and isinstance(e.ops[0], (ast.Is, ast.IsNot)) and unparse(e.left) in none_names
+                and is_sentinel(e.comparators[0])):
+            return False
+        truth = isinstance(e.ops[0], ast.IsNot) != neg
+        return lab == ("false" if truth else "true")
+
+    stop = lambda n: _touches_attrs(n) or presence_test(n)  # noqa: E731
+    seen, todo = set(), list(starts)
+    while todo:
+        n = todo.pop()
+        if n in seen or stop(n):
+            continue
+        seen.add(n)
+        from ..kinds import feasible_succ
+
+        todo += [m for m, lab in feasible_succ(n, keyvars[0], facts) if not infeasible(n, lab) and m not in seen]
     ok = head[0] not in seen and g.exit not in seen
     res.inst(f"H5Writer.{t.fallback}: a None value removes the stored scalar attribute", nontrivial=True, ok=ok)
     if not ok:
